@@ -217,8 +217,14 @@ def run_bound(case, tid):
     idx = tuple(case["idx"])
     p = Objective.Params(bc_data=(np.array(prob["A"]), np.array(prob["b"])))
     x0 = np.array(case["x0"], dtype=float)
+    css = float(case.get("css", 1.0))
+    ps = None
+    if case.get("precond"):
+        from scipy.sparse import csc_matrix
+        ps = Objective.PrecondStrategy(lambda x, pp: csc_matrix(onp.array(prob["A"])))
     with Silence():
-        obj = BoundConstrainedObjective.BoundConstrainedObjective(fb_obj, x0, p, np.array(idx))
+        obj = BoundConstrainedObjective.BoundConstrainedObjective(fb_obj, x0, p, np.array(idx), constraintStiffnessScaling=css,
+                                                                  precondStrategy=ps)
     alS = AlSolver.get_settings(**case["al"])
     subS = EquationSolver.get_settings(debug_info=False)
     ev = []
@@ -241,15 +247,20 @@ def run_bound(case, tid):
             raised = type(ex).__name__ + ":" + str(ex)[:100]
     if raised is None:
         A = onp.array(prob["A"]); b = onp.array(prob["b"]); x = onp.asarray(xr)
-        lam = onp.asarray(obj.get_multipliers()) if hasattr(obj, "get_multipliers") else onp.asarray(obj.lam)
+        # what the user gets: the point in physical variables and get_multipliers(); judged in the variables the solve
+        # ran in (x_bar = x / invScaling), where the termination test lives
+        mu = onp.asarray(obj.get_multipliers())
+        sc = 1.0 / (onp.asarray(obj.invScaling) * onp.ones(len(b)))
         k0 = onp.asarray(obj.constraintKappa); kap = onp.asarray(obj.kappa)
-        g = A @ x - b
-        gL = g.copy(); gL[list(idx)] -= lam
-        c = x[list(idx)]
+        ii = list(idx)
+        gbar = (A @ x - b) / sc
+        lam = mu / sc[ii]
+        gL = gbar.copy(); gL[ii] -= lam
+        c = sc[ii] * x[ii]
         tol = alS.tol
         allow = tol * (1.0 + 2.0 * float(onp.sum(onp.maximum(1.0, kap / k0))))
         fl = dict(stat=bool(onp.linalg.norm(gL) <= allow), feas=bool(onp.all(c >= -tol / k0)),
-                  lamNonneg=bool(onp.all(lam >= 0.0)), compl=bool(onp.all(onp.minimum(k0 * c, lam) <= 2 * tol)))
+                  lamNonneg=bool(onp.all(mu >= 0.0)), compl=bool(onp.all(onp.minimum(k0 * c, lam) <= 2 * tol)))
         ref = onp.array(case["ref"])
         agree = "EQ" if float(onp.linalg.norm(x - ref)) <= 1e-5 * (1 + float(onp.linalg.norm(ref))) else "NE"
         ev.append(dict(e="Return", agree=agree, kapGE=bool(onp.all(kap >= state["kprev"])) if state["kprev"] is not None else True, **fl))
@@ -351,7 +362,8 @@ def build_cases(rep, tier, rng):
         idx = sorted(rng.sample(range(n), rng.choice([1, 2, 3])))
         prob = dict(A=A.tolist(), b=b.tolist())
         cases.append(dict(mode="bound", prob=prob, idx=idx, x0=[rng.uniform(0.1, 1) for _ in range(n)],
-                          al=AL_VECTORS[i % 3], ref=bound_reference(prob, idx).tolist()))
+                          al=AL_VECTORS[i % 3], ref=bound_reference(prob, idx).tolist(),
+                          precond=bool(i % 2), css=[1.0, 0.05, 8.0][(i // 2) % 3]))
     return cases
 
 
